@@ -81,7 +81,7 @@ class C19(Prop):
                 cases.append(self.gen_est(rng))
                 continue
             nd = rng.choice([2, 2, 3, 4])
-            scen = rng.choice(["mixed", "mixed", "mixed", "identical", "disjoint", "tie", "nested"])
+            scen = rng.choice(["mixed", "mixed", "mixed", "identical", "disjoint", "tie", "nested", "decimal"])
             if scen == "identical":
                 d0 = self.gen_domain(rng, rng.choice(["uniform", "nonuniform", "unsorted"]))
                 ds = [list(d0) for _ in range(nd)]
@@ -96,6 +96,23 @@ class C19(Prop):
                 if (hi - lo) / 2 > st:
                     d2 = [lo, hi]
                 ds = [d1, d2][:nd] if nd == 2 else [d1, d2] + [list(d1) for _ in range(nd - 2)]
+            elif scen == "decimal":
+                # a coarse table with one-decimal end points inside a fine 1-nm grid: the table sets both the overlap and the step.
+                # Half of the time the end points are picked so that rebuilding the grid by multiplication (start + i*step) would NOT land on the end
+                # point exactly (floating-point end-point hazard): the last sample must still be interpolated, not filled
+                want_hazard = rng.random() < 0.6
+                for _ in range(3000):
+                    a = rng.randint(3000, 3300) / 10; b = a + rng.randint(2500, 3800) / 10; k = rng.randint(30, 90)
+                    st = (b - a) / (k - 1)
+                    if st <= 1.0:
+                        continue
+                    hazard = (a + st * (k - 1)) > b
+                    if hazard or not want_hazard:
+                        break
+                d2 = np.linspace(a, b, k).tolist()
+                d1 = [float(v) for v in range(int(a) - 2, int(b) + 4)]
+                ds = [d1, d2] if rng.random() < 0.5 else [d2, d1]
+                nd = 2
             elif scen == "nested":
                 d1 = self.gen_domain(rng, "uniform")
                 inner = [d1[0] + (d1[-1] - d1[0]) * rng.randint(1, 6) / 16, d1[0] + (d1[-1] - d1[0]) * rng.randint(9, 15) / 16]
